@@ -17,6 +17,11 @@ Proof. reflexivity. Qed.
    if the guard `if rec.originRec.empty()` comes back this fails and re-opens every theorem below *)
 Lemma apply_reloads_origin : rec_apply_reloads_origin = true.
 Proof. reflexivity. Qed.
+(* impl.go validEvent gives an update that does not assign sys.IsActive the activity of the STORED
+   record (repair of F-C03-2, 001f02315); if that refresh disappears this fails, [activity_ok] is a
+   real hypothesis again and [apply_fold_spec] below is re-opened *)
+Lemma update_activity_from_store : rec_update_activity_from_store = true.
+Proof. reflexivity. Qed.
 
 (* Distinct (workspace, id) pairs never share a storage row. *)
 Theorem record_key_injective : forall ws id ws' id',
@@ -32,13 +37,21 @@ Proof. exact (rec_key_inj low_mask_is_partition_mask low_part_fits_two_bytes). Q
    emptied fields (and empty strings) are absent.
    "valid" = accepted by BuildRawEvent, ids < 2^64, created ids new in their workspace (C04), and
    every update can be built over the row it meets in the store (so that Apply succeeds); the
-   field content of the record object handed to ICUD.Update is arbitrary (stale, foreign, empty);
-   its activity flag must be the stored one when the update does not assign sys.IsActive - only
-   as long as F-C03-2 is open (see [activity_ok] below). *)
+   record object handed to ICUD.Update is arbitrary in field content and activity (stale, foreign,
+   empty): [valid_history_but_activity] says nothing about it. *)
 Theorem apply_fold_spec : forall h ws id,
-  valid_history [] h = true -> ws < bound64 -> id < bound64 ->
+  valid_history_but_activity [] h = true -> ws < bound64 -> id < bound64 ->
   lookup (run [] h) ws id = spec_rec (touches (rev h) ws id) id.
-Proof. exact (apply_fold_spec_proved low_mask_is_partition_mask low_part_fits_two_bytes apply_reloads_origin). Qed.
+Proof.
+  intros h ws id V. rewrite <- (valid_history_but_activity_eq update_activity_from_store) in V.
+  exact (apply_fold_spec_proved low_mask_is_partition_mask low_part_fits_two_bytes apply_reloads_origin h ws id V).
+Qed.
+
+(* In the theorems below [valid_event] / [valid_history] / [valid_ops] contain the conjunct
+   [activity_ok]; it is vacuous: *)
+Theorem activity_hypothesis_vacuous : forall st e, valid_event st e = valid_event_but_activity st e.
+Proof. exact (valid_event_but_activity_eq update_activity_from_store). Qed.
+
 
 (* Records never created do not exist (in particular: the same id in another workspace). *)
 Theorem untouched_absent : forall h ws id,
@@ -112,17 +125,15 @@ Example stale_witness_now_folds :
   lookup (run [] stale_witness) 1 204798 = Some (mkRec 204798 1 0 0 true [Some (FNum 7); Some (FStr [120])]).
 Proof. vm_compute. split; reflexivity. Qed.
 
-(* FINDING F-C03-2 (open).  An update that does NOT assign sys.IsActive still carries an activity
-   value: newUpdateRec copies it from the record object handed to ICUD.Update, it is logged with the
-   row, and updateRecType.build sets the record's flag to it whenever the VALUES differ.  Built from
-   an older object, an update that names only `name` reactivates a record deactivated since (or,
-   naming nothing, deactivates an active one), while the logged row says "activity not assigned"
-   (IsActivated = IsDeactivated = false).  The full statement - [apply_fold_spec] with
-   [valid_history_but_activity] in place of [valid_history] - is refuted by the faithful model as
-   long as the code has this shape; [apply_fold_spec] is the partial theorem, its extra hypothesis
-   [activity_ok] (inside [valid_event]) is exactly what excludes the witness and becomes vacuous
-   (computes to true) once validEvent refreshes the unassigned activity from the stored record
-   (findings/C03/F-C03-2.diff, translator flag rec_update_activity_from_store). *)
+(* F-C03-2 (repaired in /repo 001f02315).  An update that does NOT assign sys.IsActive still carries
+   an activity value; before the repair it was the one of the record object handed to ICUD.Update
+   (newUpdateRec), it was logged with the row and updateRecType.build set the record's flag to it
+   whenever the VALUES differed: built from an older object, an update naming only `name`
+   reactivated a record deactivated since (naming nothing, an inactive snapshot deactivated an
+   active one) while the logged row said "activity not assigned".  validEvent now takes the
+   unassigned activity from the stored record before the row is logged.  The old shape is kept
+   ([build_update_leak], [apply_leak]; the model itself falls back to it when the translator no
+   longer finds the refresh) and refutes the statement on a history that is valid: *)
 Definition activity_witness : list event :=
   let d0 := mkRec 200001 1 0 0 true [Some (FStr [97])] in
   [ mkEvent 1 [mkCreate false 200001 1 0 0 true [SetTo (FStr [97])]] [];
@@ -130,17 +141,14 @@ Definition activity_witness : list event :=
     mkEvent 1 [] [mkUpdate 200001 d0 0 0 None [SetTo (FStr [98])]] ].
 
 Theorem apply_fold_spec_without_activity_hypothesis_refuted :
-  rec_update_activity_from_store = false ->
   exists h ws id, valid_history_but_activity [] h = true /\ ws < bound64 /\ id < bound64 /\
-    lookup (run [] h) ws id <> spec_rec (touches (rev h) ws id) id.
-Proof.
-  intros H; first [ discriminate H
-                  | exists activity_witness, 1, 200001; vm_compute; repeat split; try reflexivity; discriminate ].
-Qed.
+    lookup (run_leak [] h) ws id <> spec_rec (touches (rev h) ws id) id.
+Proof. exists activity_witness, 1, 200001. vm_compute. repeat split; try reflexivity. discriminate. Qed.
 
-Example activity_witness_excluded :
-  rec_update_activity_from_store = false -> valid_history [] activity_witness = false.
-Proof. intros H; first [ discriminate H | vm_compute; reflexivity ]. Qed.
+Example activity_witness_now_folds :
+  valid_history_but_activity [] activity_witness = true /\
+  lookup (run [] activity_witness) 1 200001 = Some (mkRec 200001 1 0 0 false [Some (FStr [98])]).
+Proof. vm_compute. split; reflexivity. Qed.
 
 (* non-vacuity: a concrete history over two workspaces (equal ids in both, ids on both sides of a
    4096 boundary), nested records, a singleton, field set / emptied / zero, deactivate and
@@ -157,7 +165,7 @@ Definition demo : list event :=
                   mkUpdate 204800 (mkRec 204800 2 204799 1 true [None; Some (FNum 204799)]) 204799 1 None [SetTo (FStr [120]); Keep]] ].
 
 Example apply_fold_spec_nonvacuous :
-  valid_history [] demo = true
+  valid_history_but_activity [] demo = true
   /\ lookup (run [] demo) 1 204799 = Some (mkRec 204799 1 0 0 true [Some (FNum 0); Some (FNum (-5)); Some (FStr [98; 99])])
   /\ lookup (run [] demo) 1 204800 = Some (mkRec 204800 2 204799 1 true [Some (FStr [120]); Some (FNum 204799)])
   /\ lookup (run [] demo) 2 204799 = Some (mkRec 204799 4 0 0 true [Some (FNum 9)])
@@ -202,6 +210,7 @@ Proof. vm_compute. reflexivity. Qed.
 
 Print Assumptions record_key_injective.
 Print Assumptions apply_fold_spec.
+Print Assumptions activity_hypothesis_vacuous.
 Print Assumptions untouched_absent.
 Print Assumptions reapply_idem.
 Print Assumptions reapply_completes_apply.
